@@ -34,8 +34,9 @@ func buildHeaderRequest(ctx context.Context, protocol uint32, blocks *storage.Bl
 	}
 
 	// Add block hashes in reverse order
-	for ; delta <= blocks.LastHeight(); delta *= 2 {
-		hash, err := blocks.Hash(ctx, blocks.LastHeight()-delta)
+	lastHeight := blocks.LastHeight()
+	for delta <= lastHeight {
+		hash, err := blocks.Hash(ctx, lastHeight-delta)
 		if err != nil {
 			return getheaders, err
 		}
@@ -43,9 +44,20 @@ func buildHeaderRequest(ctx context.Context, protocol uint32, blocks *storage.Bl
 		if len(getheaders.BlockLocatorHashes) > max {
 			break
 		}
-		if blocks.LastHeight() <= delta {
-			break
+		if delta == 0 {
+			delta = 1 // doubling zero would repeat the same hash
+		} else {
+			delta *= 2
 		}
+	}
+
+	if len(getheaders.BlockLocatorHashes) == 0 {
+		// The chain is shorter than delta. Never send an empty locator.
+		hash, err := blocks.Hash(ctx, lastHeight)
+		if err != nil {
+			return getheaders, err
+		}
+		getheaders.AddBlockLocatorHash(hash)
 	}
 
 	return getheaders, nil
